@@ -54,7 +54,12 @@ class World:
             next(g)
             self.gens[f] = g
             self.frame_id[id(g.gi_frame)] = f
-            stackscope.elaborate_frame.register(fn)(self._make_elab(f))
+            # hooks are installed both ways: registered directly, and (odd frames) as customize(..., elaborate=hook), whose
+            # wrapper must hand every result through unchanged -- an empty sequence is a result, not "no result"
+            if f % 2:
+                stackscope.customize(fn, elaborate=self._make_elab(f))
+            else:
+                stackscope.elaborate_frame.register(fn)(self._make_elab(f))
         for i in range(NF + 1, NF + NW + NL + 1):
             self.items[i] = W(i)
         stackscope.unwrap_stackitem.register(W)(self._unwrap)
